@@ -859,7 +859,7 @@ func streamMalformed(c *core.Ctx) {
 	// (3) header grammar
 	names := []string{"Content-Length", "content-length", "Content-length", "CONTENT-LENGTH", "Content-Length ", " Content-Length", "\u00a0Content-Length", "Content\u2011Length", "Content-Lengt", "Content-Lengthh", "Content-Type", "", "X", "é"}
 	seps := []string{":", ": ", " : ", ":\t", "", "::", ":\u3000", ": \u2028"}
-	vals := []string{"31", "+31", "-31", "0", "-0", "+0", "031", "0031", " 31 ", "31\u00a0", "\u300031", "3 1", "0x1f", "3_1", "31.0", "1e1", "", " ", "2147483648", "-2147483649", "99999999999999999999",
+	vals := []string{"31", "+31", "-31", "0", "-0", "+0", "031", "0031", " 31 ", "31\u00a0", "\u300031", "3 1", "0x1f", "3_1", "31.0", "1e1", "", " ", "2147483648", "-2147483649", "99999999999999999999", "9223372036854775807", "4611686018427387904", "-9223372036854775808", "9223372036854775808",
 		"4000000", "5", "30", "32", "٣١", "31abc", "--31", "+-31", "1", "²"}
 	eols := []string{"\r\n", "\n", "\r\r\n", " \r\n", "\r", "", "\u00a0\r\n", "\x0b\x0c\n"}
 	blanks := []string{"\r\n", "\n", " \t\r\n", "\u2003\n", "\r\n\r\n", "", "\x85\n", "\xc2\x85\n", "\xe2\x80\n"}
